@@ -70,7 +70,7 @@ TFailedStep ==
   /\ failed \/ last = "none"
   /\ \E c \in {"next", "prev", "nextauto", "prevauto"} : Cmd(c)
   /\ Observe
-  /\ last' = "none" /\ run' = "off" /\ acc' = <<>> /\ failed' = TRUE
+  /\ last' = "none" /\ run' = "off" /\ acc' = <<>> /\ failed' = failed
   /\ viol' = {} /\ drift' = {IF failed THEN "StepOfFailedIterator" ELSE "StepOfUnpositionedIterator"}
 
 TFwd ==
